@@ -604,14 +604,48 @@ func ruleZ3(c *Ctx, id string) {
 						bsz := constOfPkg(P, "github.com/goose-lang/primitive/disk", "BlockSize")
 						var base ssa.Value
 						startOK := false
+						// a value of the clearing function, or - when it is one of its parameters - what its callers pass
+						viaCallers := func(v ssa.Value) []ssa.Value {
+							v = stripConv(v)
+							pm, isPm := v.(*ssa.Parameter)
+							if !isPm || pm.Parent() != fn {
+								return []ssa.Value{v}
+							}
+							idx := -1
+							for i, q := range fn.Params {
+								if q == pm {
+									idx = i
+								}
+							}
+							var out []ssa.Value
+							for _, cs := range P.CallersOf(fn) {
+								fa := fullArgs(cs.Instr)
+								if idx >= 0 && idx < len(fa) {
+									out = append(out, stripConv(fa[idx]))
+								}
+							}
+							return out
+						}
 						for i, e := range ph.Edges {
 							if ph.Block().Dominates(ph.Block().Preds[i]) {
 								continue // the back edge
 							}
-							if bo, isB := stripConv(e).(*ssa.BinOp); isB && bo.Op == token.REM {
-								if k, isk := constIntDeep(bo.Y); isk && k == bsz {
-									startOK, base = true, stripConv(bo.X)
+							vals := viaCallers(e)
+							all := len(vals) > 0
+							for _, v := range vals {
+								bo, isB := v.(*ssa.BinOp)
+								if !isB || bo.Op != token.REM {
+									all = false
+									continue
 								}
+								if k, isk := constIntDeep(bo.Y); !isk || k != bsz {
+									all = false
+									continue
+								}
+								base = stripConv(bo.X)
+							}
+							if all {
+								startOK = true
 							}
 						}
 						R.Check(startOK, id, "inode.Resize|clearing starts at the new end of file", P.Pos(st.Pos()), "the index starts at <new size> % BlockSize", "phi initialised with size % BlockSize", "the clearing does not start at the new size's offset in its block: bytes in front of the new end are wiped, or bytes behind it are kept and reappear when the file grows")
@@ -619,12 +653,13 @@ func ruleZ3(c *Ctx, id string) {
 							blkOK, nb2 := true, 0
 							for _, bc := range P.CallsIn(fn, funcIs(V.bmap)) {
 								nb2++
-								a := stripConv(argN(bc, 1))
-								bo, isB := a.(*ssa.BinOp)
-								if !isB || bo.Op != token.QUO || stripConv(bo.X) != base {
-									blkOK = false
-								} else if k, isk := constIntDeep(bo.Y); !isk || k != bsz {
-									blkOK = false
+								for _, a := range viaCallers(argN(bc, 1)) {
+									bo, isB := a.(*ssa.BinOp)
+									if !isB || bo.Op != token.QUO || stripConv(bo.X) != base {
+										blkOK = false
+									} else if k, isk := constIntDeep(bo.Y); !isk || k != bsz {
+										blkOK = false
+									}
 								}
 							}
 							if nb2 > 0 {
